@@ -323,6 +323,15 @@ func streamC04(c *Ctx) {
 	r := c.Rng
 	ext := append(small12(), extendedInputs()...)
 	progs := c04Programs(r.Fork(), c.N)
+	// branch-join shapes x consumers (peephole / fusion hazards: data below the stack top)
+	jp, ji := joinBlock()
+	joinSet := map[string]bool{}
+	for i, src := range jp {
+		if c.Tier != "quick" || i%2 == int(c.Seed%2) {
+			progs = append(progs, src)
+			joinSet[src] = true
+		}
+	}
 	corpus, _ := loadCorpus(repoDir())
 	for _, cc := range corpus {
 		progs = append(progs, cc.query)
@@ -345,6 +354,9 @@ func streamC04(c *Ctx) {
 			continue
 		}
 		ins := []any{ext[r.Intn(len(ext))], ext[r.Intn(len(ext))], small12()[r.Intn(12)]}
+		if joinSet[src] {
+			ins = []any{ji[r.Intn(2)], ji[2+r.Intn(len(ji)-2)]} // one boolean, one other
+		}
 		type pv struct {
 			rule int
 			p    *prog
